@@ -35,6 +35,7 @@ def run(ctx):
         site_languages(ctx, "R2", site, spec[site])
     tries(ctx, "R3")
     predicate_table(ctx, "R5")
+    platform_predicate_table(ctx, "R6")
     ctx.rule("R4", "shared parsing helper: safe_urlsplit prepends a scheme exactly when PROTOCOL_RE does not match the string (every scheme-less spelling gets its host); SPECIAL_HOSTS_RE is confined to localhost / IP literals")
     from .common_url import rule_safe_urlsplit, rule_special_hosts
     rule_safe_urlsplit(ctx, "R4")
@@ -166,7 +167,10 @@ def _shortener_cells(repo, thorough=False):
     # plus the listed domains whose first label begins like a label other code strips (www. / m. / amp): prefix-stripping slips
     k = 40 if thorough else 5
     prefixed = [d for d in short if d.startswith("w")][:k] + [d for d in short if d.startswith("m")][:k] + [d for d in short if d.startswith("amp")][:k]
-    for d in sorted(set(short[::step] + short[-1:] + short[:1] + prefixed)):
+    # ... and the listed domains with the most labels (a bound computed from the deepest entry is exact for them only)
+    depth = max(d.count(".") for d in short)
+    deepest = [d for d in short if d.count(".") == depth][:3] + [d for d in short if d.count(".") == depth - 1][:2]
+    for d in sorted(set(short[::step] + short[-1:] + short[:1] + prefixed + deepest)):
         for fname, modname in (("is_shortened_url", "is_shortened_url"), ("should_resolve", "should_resolve")):
             probe(modname, fname, "http://%s/" % d, False)
             probe(modname, fname, "http://%s" % d, False)
@@ -190,8 +194,11 @@ def _shortener_cells(repo, thorough=False):
         probe(modname, fname, "http://l.example.org/a/b", False)
         probe(modname, fname, "http://el.example.org/AbC12", False)
         probe(modname, fname, "", False)
-    for d in sorted(set(yt[::7] + yt[:1] + yt[-1:])):
+    ydepth = max(d.count(".") for d in yt)
+    for d in sorted(set(yt[::7] + yt[:1] + yt[-1:] + [d for d in yt if d.count(".") == ydepth][:3])):
         probe("youtube", "is_youtube_url", "https://%s/watch?v=x" % d, True)
+        probe("youtube", "is_youtube_url", "https://m.%s/watch?v=x" % d, True)
+        probe("youtube", "is_youtube_url", "HTTPS://Music.M.%s/watch?v=x" % d.upper(), True)
         probe("youtube", "is_youtube_url", "https://%s/" % d, True)
         probe("youtube", "is_youtube_url", "https://%s.example.org/" % d, False)
         if not under_known("x" + d, yt):
@@ -395,3 +402,48 @@ def tries(ctx, rule):
     paths = repo.const(hm, "HOMEPAGE_PATHS")
     ctx.table("ural.is_homepage.HOMEPAGE_PATHS")
     ctx.ob(rule, "HOMEPAGE_PATHS/contains-root", "" in paths and "/" in paths, "HOMEPAGE_PATHS no longer contains the empty and root paths", hm.site(repo.const_node(hm, "HOMEPAGE_PATHS")))
+
+
+# ----------------------------------------------------------------------
+PLATFORM_HOSTS = {
+    "facebook": ("facebook", "is_facebook_url", ["facebook.com", "fb.me", "m.facebook.com"]),
+    "twitter": ("twitter", "is_twitter_url", ["twitter.com", "x.com", "mobile.twitter.com"]),
+    "instagram": ("instagram", "is_instagram_url", ["instagram.com", "www.instagram.com"]),
+    "telegram": ("telegram", "is_telegram_url", ["t.me", "telegram.me", "web.telegram.org"]),
+    "youtube": ("youtube", "is_youtube_url", ["youtube.com", "youtu.be", "m.youtube.com"]),
+}
+
+
+def platform_predicate_table(ctx, rule):
+    ctx.rule(rule, "model table (the predicates themselves, not only their patterns): is_facebook_url / is_twitter_url / is_instagram_url / is_telegram_url / is_youtube_url, interpreted on each site host in three letter cases x four spellings of the url (scheme, no scheme, protocol-relative, upper-case scheme with query and fragment) answer True for the string and for its parsed form, and False on decoys that carry the site's name in the query, fragment, path, userinfo or as the beginning of a foreign host (whatever the case of the decoy): a shortcut in front of the pattern decides nothing")
+    from urllib.parse import urlsplit as _urlsplit
+    from . import tables as TB
+    repo = ctx.repo
+    n = 0
+    for site, (modname, fname, hosts) in sorted(PLATFORM_HOSTS.items()):
+        m = repo.mod(modname)
+        ref = m.func(fname)
+        ctx.fn(ref.qualname)
+        cells = []
+        for h in hosts:
+            for hv in (h, h.upper(), h.title()):
+                for tmpl in ("https://%s/user", "%s/user", "//%s/user", "HTTPS://%s/user?x=1#y"):
+                    cells.append((tmpl % hv, True))
+                cells.append((_urlsplit("https://%s/user" % hv), True))
+            for decoy in ("https://evil.org/?ref=%s#%s" % (h, h), "https://%s.evil.org/user" % h, "https://evil.org/%s" % h, "EVIL.ORG/u?ref=%s" % h, "HTTPS://EVIL.ORG/U?REF=%s#%s" % (h.upper(), h), "https://%s@evil.org/" % h):
+                cells.append((decoy, False))
+            if h.count(".") == 1:
+                # a glued label in front of the registrable domain is another domain
+                cells.append(("https://not%s/user" % h, False))
+            cells.append((_urlsplit("https://evil.org/?ref=%s#%s" % (h, h)), False))
+        for arg, want in cells:
+            try:
+                got = TB.call(repo, modname, fname, arg)
+            except Unknown as e:
+                ctx.undecided(rule, "%s(%r): %s" % (fname, arg, e))
+                continue
+            n += 1
+            shown = arg if isinstance(arg, str) else "urlsplit(%r)" % arg.geturl()
+            ctx.ob(rule, "%s/%s" % (fname, shown), got is want, "%s(%s) is %r, expected %r" % (fname, shown, got, want), m.site(ref.node), witness=shown, trivial=True)
+    ctx.ob(rule, "cells", True, "", None, sample="%d (predicate, url) cells" % n)
+    ctx.require_instances(rule, n, 300, "(predicate, url) cells")
